@@ -656,8 +656,11 @@ def write_evidence(prop, tier, seed, sel, results, wall, nviol, known_hits):
         assumptions=sorted(assumptions | {"Kani's allocator never fails", "&str inputs are valid UTF-8 (type invariant)",
                                           "CBMC/Kani are sound for the Rust semantics they model"}),
         wall_s=round(wall, 2), violations=nviol)
-    os.makedirs(os.path.join(VERIF, "evidence"), exist_ok=True)
-    json.dump(ev, open(os.path.join(VERIF, "evidence", prop + ".json"), "w"), indent=1)
+    # VERIF_EVIDENCE redirects the evidence of experiments (seeded changes, probes on a scratch worktree) elsewhere;
+    # the registered commands never set it, so evidence/ only ever describes runs against VERIF_REPO's default (/repo).
+    evdir = os.environ.get("VERIF_EVIDENCE") or os.path.join(VERIF, "evidence")
+    os.makedirs(evdir, exist_ok=True)
+    json.dump(ev, open(os.path.join(evdir, prop + ".json"), "w"), indent=1)
 
 
 def cmd_setup(args):
